@@ -255,7 +255,7 @@ theorem serTrig_noloop (fb : Bool) : ∀ (cs : List (Bool × List (Str × Bool))
       exact serDoc_noloop fb qs _ _ _ _ he
     · exact serTrig_noloop fb r _ _ _
 
-theorem strictSeq_noloop : ∀ (us : List Str) (st : Store) (m : Mgr) (acc : List QN),
+theorem strictSeq_noloop : ∀ (us : List Str) (st : Store) (m : Mgr) (acc : List (Str × QN)),
     (strictSeq us st m acc).2.2 ≠ .error .Loop
   | [], _, _, _ => by simp [strictSeq]
   | u :: r, st, m, acc => by
